@@ -178,3 +178,16 @@ std::vector<size_t> diff_offsets(const bytes &a, const bytes &b)
       r.push_back(i);
   return r;
 }
+
+bytes base_file(const EncCase &e, bool toolbase)
+{
+  if (!toolbase)
+    return ref::encrypt_file(e.P, fparams(e));
+  ChildResult r = run_in_child([&]() { return wapi::encrypt(e.P, e.key, e.seed, e.cmode, e.hmode, pcfg(e, wapi::SchedSpec())).ser(); });
+  if (r.status != CH_OK)
+    return bytes();
+  wapi::OpOut o = wapi::OpOut::de(r.payload);
+  if (!o.ret)
+    return bytes();
+  return o.out;
+}
